@@ -54,6 +54,8 @@ func (E *Engine) mapUpdate(fr *Frame, st *State, t *ssa.MapUpdate) {
 	dk, dks := E.mdomKey(mt, fr.tenv)
 	dh := E.get(st, dk, dks)
 	E.set(st, dk, tb.Store(dh, m, tb.Store(tb.Select(dh, m), k, tb.True())))
+	E.escape(E.value(fr, t.Value))
+	E.escape(E.value(fr, t.Key))
 	if vs != SUnit {
 		var v *Term
 		switch x := E.value(fr, t.Value).(type) {
